@@ -36,7 +36,15 @@ func tableGetN(L *LState) int {
 }
 
 func tableMaxN(L *LState) int {
-	L.Push(LNumber(L.CheckTable(1).MaxN()))
+	tbl := L.CheckTable(1)
+	max := LNumber(tbl.MaxN())
+	// the largest positive numeric key, wherever the table keeps it
+	tbl.ForEach(func(k, _ LValue) {
+		if n, ok := k.(LNumber); ok && n > max {
+			max = n
+		}
+	})
+	L.Push(max)
 	return 1
 }
 
